@@ -55,7 +55,7 @@ Anchors in the code: {json.dumps(prop['anchors'], indent=1)}
   for BOTH trees (test suite pass counts and demo output). To toggle: `git -C {d} diff -- python > {d}/_seed/patch.diff;
   git -C {d} checkout -- python` and `git -C {d} apply {d}/_seed/patch.diff`.
 
-Leave the worktree with the change APPLIED (uncommitted) when you finish. Do not commit. Never touch `/repo` or `/verif`
+Leave the worktree with the change APPLIED (uncommitted) when you finish. Do not commit. Never run `git stash` (the stash is shared with /repo). Never touch `/repo` or `/verif`
 and do not read anything under `/verif`. Practical facts: a real repository = `from lsst.daf.butler import Butler;
 Butler.makeRepo(root); b = Butler.from_config(root, writeable=True)` (SQLite + POSIX files, ~0.3 s);
 `lsst.daf.butler.tests` is NOT importable here (write your own fixtures: `registry.insertDimensionData`,
